@@ -119,10 +119,10 @@ Print Assumptions C13_package_append_preserves.
    that qualifying type names commutes with the embedding. *)
 Definition C13_full_statement : Prop :=
   forall es bd pkg D,
-    J5sC13Proofs.valid bd = true -> (forall x, In x bd -> bfile_pkg x <> []) -> seq_ok bd es ->
+    valid bd = true -> (forall x, In x bd -> bfile_pkg x <> []) -> seq_ok bd es ->
     (exists x, In x bd /\ bfile_pkg x = pkg) ->
-    J5sC13Proofs.compile bd pkg = Ok D ->
-    exists D', J5sC13Proofs.compile (apply_edits bd es) pkg = Ok D' /\ files_ext D D'.
+    compile bd pkg = Ok D ->
+    exists D', compile (apply_edits bd es) pkg = Ok D' /\ files_ext D D'.
 
 Theorem C13_full : C13_full_statement.
 Proof. exact c13_full. Qed.
@@ -132,8 +132,8 @@ Print Assumptions C13_full.
    array's items, an option of the inline enum inside that, a field of a nested declaration, a
    new nested enum - satisfy seq_ok, change the output, and the old descriptors embed *)
 Theorem C13_deep_edits_preserve :
-  exists D D', J5sC13Proofs.compile w_deep (b "foo.v1") = Ok D /\
-               J5sC13Proofs.compile (apply_edits w_deep w_deep_edits) (b "foo.v1") = Ok D' /\
+  exists D D', compile w_deep (b "foo.v1") = Ok D /\
+               compile (apply_edits w_deep w_deep_edits) (b "foo.v1") = Ok D' /\
                files_ext D D' /\ D' <> D.
 Proof. exact deep_edits_preserve. Qed.
 Print Assumptions C13_deep_edits_preserve.
